@@ -257,24 +257,20 @@ Definition k_mul : str := k_op ++ [42].
 Local Close Scope N_scope.
 Definition mem (s : str) (l : list str) : bool := existsb (leqb s) l.
 Definition dishonest_templates : list str := [k_div_i; k_math_log].
-(* C02-N5 (residue of /repo e8f08a7): the sqlite LIKE templates build their pattern with `||`, SQLite's strongest
-   binary operator, next to a hole that asks for strength 0: `{column:7} LIKE {prefix:0} || '%'`.  Site 1 of the
-   three templates is that hole (site 0 = the column, repaired). *)
+(* the LIKE templates (C02-N6: strength 100 over `{column:0}`, repaired by /repo e8f08a7; C02-N5: the pattern hole of
+   the sqlite variants next to `||` with required strength 0, repaired by /repo bb7bbd5) *)
 Local Open Scope N_scope.
 Definition k_text_starts_with : str := k_tmpl ++ [116;101;120;116;46;115;116;97;114;116;115;95;119;105;116;104].
 Definition k_text_contains : str := k_tmpl ++ [116;101;120;116;46;99;111;110;116;97;105;110;115].
 Definition k_text_ends_with : str := k_tmpl ++ [116;101;120;116;46;101;110;100;115;95;119;105;116;104].
 Local Close Scope N_scope.
 Definition concat_pattern_templates : list str := [k_text_starts_with; k_text_contains; k_text_ends_with].
-Definition known_pattern_hole (dialect : str) (t : triple) : bool :=
-  leqb dialect [115;113;108;105;116;101]%N (* sqlite *) && mem (fst (fst t)) concat_pattern_templates && Nat.eqb (snd (fst t)) 1.
 
-(* Two classes are left: F5 (a CHILD template that declares strength 100 over a top-level `*` or `/`) and C02-N5
-   (the pattern hole of a PARENT LIKE template of sql.sqlite).
-   F2 (between), F4 (comparison chain), F30 (multiply), C02-N2 (equality under comparison), C02-N3 (regexp) and
-   C02-N6 (LIKE templates declaring strength 100 / column hole 0) were repaired in /repo: their triples are not
-   excused, so a regression breaks sql_compat. *)
-Definition known_triple (dialect : str) (t : triple) : bool := mem (snd t) dishonest_templates || known_pattern_hole dialect t.
+(* One class is left: F5 (a CHILD template that declares strength 100 over a top-level `*` or `/`).
+   F2 (between), F4 (comparison chain), F30 (multiply), C02-N2 (equality under comparison), C02-N3 (regexp),
+   C02-N6 and C02-N5 (LIKE templates) were repaired in /repo: their triples are not excused, so a regression breaks
+   sql_compat.  (The dialect argument is kept: a class may be dialect-specific, as C02-N5 was.) *)
+Definition known_triple (dialect : str) (t : triple) : bool := mem (snd t) dishonest_templates.
 
 Definition sql_compat (dialect : str) : bool :=
   forallb (fun tv => known_triple dialect (fst tv) || verdict_ok (snd tv)) (all_triples dialect).
